@@ -336,3 +336,56 @@ func TestC13_StructuredChallengeCorpus(t *testing.T) {
 		t.Fatalf("HARNESS-INCONCLUSIVE: corpus has only %d usable lines in %d shape classes", n, len(classes))
 	}
 }
+
+// propOverlapping: verdicts of verifications that overlap in time.  A handful of (key, message, signature) tuples -
+// valid ones and their one-edit neighbours, messages of different lengths so that the hash states differ in shape -
+// verified from several goroutines at once, through shared and through separate key objects; every verdict must be
+// the reference's.
+func propOverlapping(t *rapid.T) {
+	n := rapid.IntRange(3, 8).Draw(t, "tuples")
+	var calls []func() string
+	var want []string
+	var key bytes.Buffer
+	shared := map[string]*bitcoin.SchnorrPublicKey{}
+	for i := 0; i < n; i++ {
+		d := gen.NonZero256(t, ref.N, fmt.Sprintf("d%d", i))
+		if i > 0 && rapid.Bool().Draw(t, fmt.Sprintf("samekey%d", i)) {
+			d = big.NewInt(int64(7 + i%2))
+		}
+		pk := ref.B32(ref.BaseMul(d).X)
+		msg := gen.Message(t, fmt.Sprintf("msg%d", i))
+		sig, ok := ref.BIP340Sign(d, gen.Bytes(t, 32, 32, fmt.Sprintf("aux%d", i)), msg)
+		if !ok {
+			t.Skip("k' = 0")
+		}
+		switch gen.Sampled([]string{"none", "none", "none", "s+1", "r+1", "msg-extend"}).Draw(t, fmt.Sprintf("edit%d", i)) {
+		case "s+1":
+			sig[63] ^= 1
+		case "r+1":
+			sig[31] ^= 1
+		case "msg-extend":
+			msg = append(msg, 0)
+		}
+		w := fmt.Sprint(ref.BIP340Verify(pk, msg, sig))
+		k, err := bitcoin.NewSchnorrPublicKey(pk)
+		if err != nil {
+			t.Fatalf("NewSchnorrPublicKey(%x): %v", pk, err)
+		}
+		if prev, ok := shared[string(pk)]; ok && rapid.Bool().Draw(t, fmt.Sprintf("sharedobj%d", i)) {
+			k = prev
+		}
+		shared[string(pk)] = k
+		calls = append(calls, func() string { return fmt.Sprint(k.Verify(msg, sig)) })
+		want = append(want, w)
+		fmt.Fprintf(&key, "%x|%x|%x;", pk, msg, sig)
+	}
+	g := gen.Sampled([]int{2, 3, 4, 8}).Draw(t, "goroutines")
+	stat.Case("overlapping", []string{fmt.Sprintf("goroutines:%d", g), fmt.Sprintf("tuples:%d", n)}, true, key.Bytes(), func() any {
+		return map[string]any{"tuples": n, "goroutines": g, "expected_verdicts": want}
+	})
+	if msg := lib.Overlap(calls, want, g, 3); msg != "" {
+		t.Fatalf("Verify: %s", msg)
+	}
+}
+
+func TestC13_Overlapping(t *testing.T) { rapid.Check(t, propOverlapping) }
